@@ -50,7 +50,7 @@ def twice_mech(default, x, y, pd, odd, m):
 
 def case_array(ctx, rng, dormant=False):
     sr = ctx.sr
-    sym = rng.choice(gen.SYMS5)
+    sym = gen.pick_sym(rng)
     vals = gen.Values(rng, "int", rng.choice(["float64", "complex128"]))
     pattern = rng.choice(["random", "random", "all-ket", "all-bra"])
     nd = rng.randint(1, 4)
@@ -166,6 +166,27 @@ def case_array(ctx, rng, dormant=False):
                         V(f"tensordot-raises-{o.excname}", repr(o.exc), phase_dual=pd)
                     elif not cmp.close(o.value, n2, True):
                         V("norm-conj", f"<x|x> via conj(phase_dual={pd}), order {order}, mode {mode} = {o.value!r} != ||x||^2 = {n2}", phase_dual=pd, order=order, mode=mode)
+            # the same number read off the PRESERVED rank-0 result through the scalar protocols
+            order = rng.choice(["conj,x", "x,conj"])
+            a, b = (xc, x) if order == "conj,x" else (x, xc)
+            o = ctx.call(sr.tensordot, a, b, axes=(axes_all, axes_all), mode=rng.choice(["fused", "blockwise", None]), preserve_array=True)
+            if o.ok and getattr(o.value, "ndim", None) == 0:
+                cplx = any(np.iscomplexobj(b_) for b_ in o.value.blocks.values())
+                readers = {"item": lambda z: z.item(), "complex": lambda z: complex(z), "bool": lambda z: bool(z)}
+                if not cplx:
+                    readers["float"] = lambda z: float(z)
+                    if float(n2).is_integer():
+                        readers["int"] = lambda z: int(z)
+                rd = rng.choice(sorted(readers))
+                r_ = ctx.call(readers[rd], o.value)
+                ctx.evaluated()
+                ctx.count("law", "norm-conj-preserved-scalar-read")
+                ctx.count("reader", rd)
+                want_ = bool(n2) if rd == "bool" else n2
+                if not r_.ok:
+                    V(f"{rd}-raises-{r_.excname}", f"{rd}(<x|x> kept as an array): {r_.exc!r}", phase_dual=pd, order=order)
+                elif (rd == "bool" and r_.value != want_) or (rd != "bool" and not cmp.close(r_.value, n2, True)):
+                    V("norm-conj", f"<x|x> via conj(phase_dual={pd}), order {order}, kept as a rank-0 array and read with {rd}() = {r_.value!r} != ||x||^2 = {n2}", phase_dual=pd, order=order, reader=rd)
             if n2 and (odd or (pd and not allket and not allbra)):
                 ctx.nontrivial(("norm-conj", sig, pd))
         else:
@@ -275,7 +296,7 @@ def case_array(ctx, rng, dormant=False):
 
 def case_network(ctx, rng):
     sr = ctx.sr
-    sym = rng.choice(gen.SYMS5)
+    sym = gen.pick_sym(rng)
     nt = rng.choice([1, 2, 2, 3])
     try:
         kets = network.build_network(ctx, rng, sym, nt, pbond=0.9, maxdang=2, p_conj=0.0, label_kind=rng.choice(["int", "tuple"]))
@@ -332,6 +353,14 @@ def case_network(ctx, rng):
             ctx.violation("network-labels-left", f"<psi|psi> ends with labels {labels_of(z.x)} not annihilated", dict(wit, route=rec))
             return
         val = z.x.blocks[()] * phases_of(z.x).get((), 1) if () in z.x.blocks else 0.0
+        if () in z.x.blocks and rng.random() < 0.5:
+            rd_ = ctx.call(complex, z.x)
+            ctx.count("reader", "complex-network")
+            if rd_.ok:
+                val = rd_.value
+            else:
+                ctx.violation(f"complex-raises-{rd_.excname}", f"complex(<psi|psi>): {rd_.exc!r}", dict(wit, route=rec))
+                return
         if not cmp.close(val, n2, True):
             ctx.violation("network-norm", f"<psi|psi> = {val!r} != ||psi||^2 = {n2} along route {rec}", dict(wit, route=rec))
             return
